@@ -270,6 +270,10 @@ def trace(data, params, functions, targets=None, **kw):
     return res, nodes, roots, dag, fn
 
 
+HIST_CANDIDATES = [*DEFAULT_TARGETS, "zu_verst_eink_y_sn", "vorsorgeaufw_y_sn", "arbeitsl_geld_2_eink_anr_frei_m", "wohngeld_m_hh",
+                   "erziehungsgeld_m", "kinderzuschl_m_bg", "ges_pflegev_beitr_arbeitnehmer_m", "freibeträge_y_sn"]
+
+
 def feasible_targets(functions, data_cols, candidates=None, data=None, params=None):
     """Those of the candidate targets (default: DEFAULT_TARGETS) that can be computed from the given data
     columns at this date (before 2015 the full default set is not computable)."""
